@@ -2,7 +2,7 @@
 # usage: mkwt.sh <dir>   -- scratch worktree of /repo HEAD with prebuilt native modules linked in
 set -e
 d="$1"
-git -C /repo worktree add --detach "$d" HEAD >/dev/null 2>&1
+git -C /repo worktree add --detach "$d" "${2:-HEAD}" >/dev/null 2>&1
 sp=/venv/lib/python3.12/site-packages/piquasso
 ln -s $sp/_math/permanent.cpython-312-x86_64-linux-gnu.so $sp/_math/torontonian.cpython-312-x86_64-linux-gnu.so $sp/_math/pfaffian.cpython-312-x86_64-linux-gnu.so "$d/piquasso/_math/"
 ln -s $sp/jax_extensions/_jax_perm_core.cpython-312-x86_64-linux-gnu.so "$d/piquasso/jax_extensions/"
